@@ -131,7 +131,7 @@ def guard_summary(o, fn=None, pv=None):
                 walk(y, depth)
     for x0 in lasts:
         walk(x0, 0)
-    if "len" in names or "try_into" in names or (raw and raw <= {"next", "into_iter", "try_as_array", "branch"} and "next" in raw):
+    if "len" in names or "try_into" in names or "try_from" in names or (raw and raw <= {"next", "into_iter", "try_as_array", "branch"} and "next" in raw):
         return "@len"       # the arity of the input array, however it is tested (len(), the k-th next(), Vec -> [T; N])
     if last[0] == "discr" and is_call(last[1]) and last[1][1] in ("core::slice::<impl [T]>::first", "core::slice::<impl [T]>::last",
                                                                     "alloc::vec::Vec::<T, A>::first", "alloc::vec::Vec::<T, A>::pop"):
